@@ -577,6 +577,7 @@ func minInt(a, b int) int {
 type reply struct {
 	ids []string
 	ds  []float64
+	txt []string // the distances as printed
 	cur int64
 }
 
@@ -594,6 +595,7 @@ func nearby(c *srv.Conn, args ...string) (reply, error) {
 			}
 			rp.ids = append(rp.ids, e.Array[0].Str)
 			rp.ds = append(rp.ds, d)
+			rp.txt = append(rp.txt, e.Array[1].Str)
 		} else {
 			rp.ids = append(rp.ids, e.Str)
 		}
@@ -646,6 +648,48 @@ func (x *run) blackBoxQuery(c *srv.Conn, rng *rand.Rand, key string, sample bool
 		return
 	}
 	sids := x.h.spatial()
+	// is the unlimited order free of (rounding-level) inversions?  Then the objects at a distance
+	// not above d are exactly a prefix of it, by the server's own printed numbers.
+	uSorted := true
+	for i := 0; i+1 < len(u.ds); i++ {
+		if u.ds[i+1] < u.ds[i] {
+			uSorted = false
+		}
+	}
+	// exact round trip: "distance does not exceed the radius" includes equality.  Re-query with the
+	// radius set to exactly the text the server printed for an object: that object, and every
+	// object the server printed at a distance not above it, must come back, and nothing else.
+	if uSorted {
+		picks := []int{0, len(u.ids) - 1, rng.Intn(len(u.ids)), rng.Intn(len(u.ids)), rng.Intn(len(u.ids))}
+		for _, j := range picks {
+			if !(u.ds[j] > 0) {
+				continue // radius 0 means no cut at all
+			}
+			rr, err := nearby(c, append([]string{"LIMIT", big, "DISTANCE", "IDS"}, append(qa, u.txt[j])...)...)
+			if err != nil {
+				x.fail("oracle", "knn-reply-shape", err.Error(), map[string]interface{}{"radius": u.txt[j]}, nil, nil)
+				continue
+			}
+			r.Dist("radius-on-boundary-query")
+			k := 0
+			for k < len(u.ds) && u.ds[k] <= u.ds[j] {
+				k++
+			}
+			if strings.Join(rr.ids, "\x01") != strings.Join(u.ids[:k], "\x01") {
+				found := false
+				for _, id := range rr.ids {
+					if id == u.ids[j] {
+						found = true
+					}
+				}
+				what := fmt.Sprintf("NEARBY with radius %s, exactly the distance the server printed for %s: the reply has %d ids, the %d objects printed at a distance <= it were expected", u.txt[j], u.ids[j], len(rr.ids), k)
+				if !found {
+					what += "; " + u.ids[j] + " itself, lying exactly on the radius, is missing"
+				}
+				x.fail("oracle", "knn-radius-on-boundary", what, map[string]interface{}{"radius": u.txt[j], "object": u.ids[j]}, rr.ids, u.ids[:k])
+			}
+		}
+	}
 	// radius: around the distance of a random object, exactly a distance, tiny, huge
 	for t := 0; t < 3; t++ {
 		var rad float64
@@ -703,12 +747,14 @@ func (x *run) blackBoxQuery(c *srv.Conn, rng *rand.Rand, key string, sample bool
 			flat, _, rank, pos := x.modelTrees(sids, []float64{rad})
 			mod := x.drv.Ask(fmt.Sprintf("nearby %s 0 %s - %s", rank(rad), big, flat))
 			parts := strings.SplitN(mod, " ", 2)
-			// objects whose distance agrees with the radius to within rounding noise may fall on
-			// either side of the cut: left out of the comparison on both sides (the direct oracle
-			// above uses the stricter 1e-9 rule)
+			// objects whose distance agrees with the radius to within rounding noise without being
+			// equal to it may fall on either side of the cut: left out of the comparison on both
+			// sides.  An object exactly ON the radius stays in: the model's radius_stop is
+			// max_dist < d, so equality is inside, and the server must agree.
 			nearRad := map[string]bool{}
 			for _, id := range sids {
-				if noise(dist(x.q, x.h.objs[id].r), rad) {
+				d := dist(x.q, x.h.objs[id].r)
+				if noise(d, rad) && !(d == rad && uSorted) {
 					nearRad[strconv.Itoa(pos[id])] = true
 				}
 			}
